@@ -90,6 +90,11 @@ type Pipe struct {
 	WMarks []Mark
 	DMarks []Mark
 	readerGone bool
+	// BrokenOff is the cumulative offset at which a Write call of the writing end first returned an
+	// error (-1 = never). A failed write may have torn a frame, so the writer has declared the stream
+	// dead; whatever later Write calls still put on the wire before the socket is closed is not a
+	// frame stream any more and a raw peer must not interpret it.
+	BrokenOff  int
 	finAt      time.Duration
 	finSeen    bool
 	rstAt      time.Duration
@@ -181,7 +186,7 @@ func New(w *core.World) *Net {
 }
 
 func (n *Net) newPipe(name string) *Pipe {
-	return &Pipe{n: n, name: name, cap: n.Cap}
+	return &Pipe{n: n, name: name, cap: n.Cap, BrokenOff: -1}
 }
 
 func (n *Net) newLink(address string) *Link {
@@ -512,6 +517,20 @@ func (c *Conn) Read(b []byte) (int, error) {
 
 // Write implements net.Conn.
 func (c *Conn) Write(b []byte) (int, error) {
+	n, err := c.write(b)
+	if err != nil {
+		c.n.mu.Lock()
+		if c.wr.BrokenOff < 0 {
+			c.wr.BrokenOff = c.wr.Written
+			c.n.W.Logf("write c%d failed at stream offset %d: %v", c.id, c.wr.Written, err)
+		}
+		c.n.mu.Unlock()
+	}
+
+	return n, err
+}
+
+func (c *Conn) write(b []byte) (int, error) {
 	simhook.Yield("net.Write")
 	total := 0
 	first := true
